@@ -216,19 +216,19 @@ def gen_eval(rng, maxL):
 
 def generate(ctx):
     rng = ctx.rng; maxL = ctx.n(40, 300)
-    for _ in range(ctx.n(1200, 20000)):
+    for _ in range(ctx.n(1200, 60000)):
         c = gen_eval(rng, maxL)
         s = c['p']['sigma']; n_in = sum(1 for x in c['r'] if not x > s)
         ctx.case('eval', c, 0 < n_in < len(c['r']), tags=['pot:' + c['pot'], 'sigma:' + c['fam']])
         suite_eval(ctx, c)
-    for _ in range(ctx.n(60, 600)):
+    for _ in range(ctx.n(60, 3000)):
         c = gen_eval(rng, 8)
         L = rng.choice([4, 8, 12]); dr = rng.choice([1, 1, 2])
         c['p']['sigma'] = float(rng.choice([1, 2, 3]) * dr) + rng.choice([0.0, 0.0, 0.5])
         if 'rcut' in c['p']: c['p']['rcut'] = c['p']['sigma'] * rng.choice([1.5, 2.0, 2.5])
         case = {'pot': c['pot'], 'p': c['p'], 'L': L, 'dr': dr}
         ctx.case('intgrid', case, True, tags=['intgrid:' + c['pot']]); suite_intgrid(ctx, case)
-    for _ in range(ctx.n(150, 1500)):
+    for _ in range(ctx.n(150, 5000)):
         c = gen_eval(rng, 16)
         k = rng.randint(2, 4)
         s0 = c['p']['sigma']
